@@ -18,7 +18,7 @@ ALL = ['RNE', 'RNA', 'RTP', 'RTN', 'RTZ', 'RAZ', 'RTO', 'RTE']
 # name: (arity, modes, context kind, preconditions)
 EFT = {
     'ideal_2sum': (2, ALL, 'mps', None), 'fast_2sum': (2, NEAREST, 'mps', 'ordered'), 'classic_2sum': (2, NEAREST, 'mps', None),
-    'priest_2sum': (2, NEAREST, 'mps', None), 'ideal_2mul': (2, ALL, 'mp', None), 'fast_2mul': (2, ALL, 'mp', None), 'ideal_fma': (3, ALL, 'mp', None),
+    'priest_2sum': (2, ALL, 'mps', None), 'ideal_2mul': (2, ALL, 'mp', None), 'fast_2mul': (2, ALL, 'mp', None), 'ideal_fma': (3, ALL, 'mp', None),
     'classic_2mul': (2, NEAREST, 'mp', 'split'), 'veltkamp_split': (1, NEAREST, 'mp', 'split'), 'classic_2fma': (3, NEAREST, 'mp', None),
 }
 TIER = {'quick': dict(ps=[2, 3, 4], NB=3, W=32), 'thorough': dict(ps=[2, 3, 4, 5, 6], NB=4, W=48)}
@@ -28,7 +28,7 @@ def tasks(tier, seed):
     t = TIER[tier]
     ts = []
     QUICK_PS = {'ideal_2sum': [2, 3, 4], 'fast_2sum': [2, 3, 4], 'classic_2sum': [2, 3, 4], 'priest_2sum': [2, 3], 'ideal_2mul': [2, 3], 'fast_2mul': [2, 3],
-                'ideal_fma': [2, 3], 'classic_2mul': [4], 'veltkamp_split': [4, 5], 'classic_2fma': [2]}
+                'ideal_fma': [2, 3], 'classic_2mul': [4, 5], 'veltkamp_split': [4, 5], 'classic_2fma': [2]}
     THOROUGH_PS = {'ideal_2sum': [2, 3, 4, 5, 6], 'fast_2sum': [2, 3, 4, 5, 6], 'classic_2sum': [2, 3, 4, 5, 6], 'priest_2sum': [2, 3, 4, 5], 'ideal_2mul': [2, 3, 4, 5],
                    'fast_2mul': [2, 3, 4, 5], 'ideal_fma': [2, 3, 4], 'classic_2mul': [4, 5, 6], 'veltkamp_split': [4, 5, 6, 7], 'classic_2fma': [2, 3, 4]}
     for fn, (ar, modes, kind, pre) in EFT.items():
@@ -144,7 +144,7 @@ def _summary_concrete(op, args, ctx):
         m = ((x.m * y.m) << (ep - ex)) + (z.m << (z.exp - ex)); zs = (x.s != y.s) and z.s
     if m == 0:
         return Float(bool(zs), ex, 0)
-    p, n, rm = _ctx_params(ctx)
+    p, n, rm = _ctx_params(ctx)[:3]
     d = round_detail(abs(m), m < 0, p, n, rm, -ex)
     return Float(m < 0, ex, int(d['R']))
 
@@ -180,7 +180,7 @@ def _run_symbolic(task):
         fn = task['fn']; ar, modes, kind, pre = EFT[fn]
         p, rm = task['p'], task['rm']
         ctx = _ctx(kind, p, rm)
-        NB = t['NB'] if not fn.startswith('classic_2') else (1 if fn == 'classic_2fma' else max(1, t['NB'] - 1))
+        NB = t['NB'] if not fn.startswith('classic_2') else (1 if fn == 'classic_2fma' or (fn == 'classic_2mul' and p >= 5 and tier == 'quick') else max(1, t['NB'] - 1))
         expmin = (1 - p) if kind == 'mps' else 0
         n = expmin - 1 if kind == 'mps' else None
         summaries.install()
@@ -195,6 +195,12 @@ def _run_symbolic(task):
             ms, ss = vs[:ar], vs[ar:]
             for m in ms:
                 e.assume(is_member(m.t, p, n, -expmin))
+            if fn == 'classic_2mul':
+                # Dekker's product (two Veltkamp splits and a 5-term sum): the first factor is enumerated (a seeded half in quick)
+                if tier == 'quick':
+                    e.assume(z3.URem(ms[0].t + ss[0].t + z3.BitVecVal(task.get('seed', 0), W), z3.BitVecVal(2 if p < 5 else 6, W)) == 0)
+                ms = [SymInt(z3.BitVecVal(e.choose(m.t), W)) if i < 1 else m for i, m in enumerate(ms)]
+                ss = [SymInt(z3.BitVecVal(e.choose(s_.t), W)) if i < 1 else s_ for i, s_ in enumerate(ss)]
             if fn == 'classic_2fma':
                 # 17 nested roundings: the two factors are enumerated (deterministic choose), the addend stays symbolic
                 if tier == 'quick':
